@@ -147,9 +147,34 @@ def c13(tier):
 
 # =====================================================================================================  C04
 
+def directive_tree_mc(c, tier):
+    """MC of the pass iterator (DirectiveTree.tla) and replay of every enumerated sequence into the real parser."""
+    r = c.mc("MC_DirectiveTree", Q(tier, "MC_DirectiveTree.cfg", "MC_DirectiveTree_8.cfg"), workers=8, timeout=3000)
+    c.mc("MC_DirectiveTree", "MC_DirectiveTree_bug.cfg", expect_violation=True, workers=4, timeout=600)
+    beh = [p for t, p in r["replay"]]
+    bf = os.path.join(WORK, f"{c.prop}_passes.beh.ndjson")
+    mf = os.path.join(WORK, f"{c.prop}_passes.mismatch.ndjson")
+    write_ndjson(bf, beh)
+    rr = run([VH, "replay", "passes", bf, mf], timeout=1800)
+    st = json.loads(rr.stdout.strip().splitlines()[-1])
+    c.extra["directive_sequences_replayed"] = st["replayed"]
+    c.traces_validated += st["replayed"]
+    if beh:
+        c.samples.append({"directive_tree_behaviour": beh[len(beh) // 2]})
+    for m in read_ndjson(mf)[:20]:
+        # fidelity of the pass model (R1): a different but still complete and linear pass selection is not a violation;
+        # the property clauses are checked on the real passes: cover (C14) and bound (C04) - see the monitors
+        c.drift.append({"module": "DirectiveTree", "text": m["text"], "spec": m["spec"], "impl": m["impl"]})
+    if st["mismatches"]:
+        c.extra["model_drift_DirectiveTree"] = st["mismatches"]
+        c.notes.append("MODEL-DRIFT DirectiveTree: the real pass iterator differs from the model on %d sequences" % st["mismatches"])
+
+
 def c04(tier):
     build(("release", "checked"))
     c = Check("C04", tier, "model_checking")
+    directive_tree_mc(c, tier)
+    r = c.mc("MC_Lexer", "MC_Lexer_gen3.cfg", workers=8, timeout=1800)      # the scanner's progress property ([][pos' > pos])
     props = ["C04", "C15"]       # cursor lists are part of C04's quantifier; C15 makes the harness pass them
     for vh, label in ((VH, "release"), (VH_CHECKED, "checked")):
         tasks, n2 = soup_tasks("full", 2, "six")
@@ -165,6 +190,7 @@ def c04(tier):
         tasks += splice_tasks(Q(tier, 4000, 60000), "six")
         tasks += walk_tasks(Q(tier, 20000, 300000), "six")
         tasks += seed_tasks("wide" if tier == "thorough" else "six")
+        tasks += split_tasks("scaled", {"max_k": Q(tier, 30, 60)}, Q(tier, 30, 60) * 8, [], "six", chunks=16)
         c.explore(tasks, f"soup_{label}", props, vh=vh, timeout_ms=Q(tier, 2000, 10000), sample_cap=Q(tier, 60, 300))
     c.exhaustive = True
     return c.finish(
@@ -212,6 +238,7 @@ def c08(tier):
 def c14(tier):
     build(("release",))
     c = Check("C14", tier, "model_checking")
+    directive_tree_mc(c, tier)
     c.explore(basic_corpus(tier, cfgs_soup="default"), "corpus", ["C14"], sample_cap=Q(tier, 250, 1500))
     return c.finish(
         rule="as C01 (one configuration: parsing does not depend on it); C14_Violations of Props.tla on the public parser's result; parent / Eof clauses on well-formed inputs (seeds)")
